@@ -100,17 +100,8 @@ def partition_dtype(repo, res):
             return Node("Section", name=f"def_{mt.f['name']}", statements=[], declarations=[], input=[], output=[])
 
         # the real L.ufl_to_lnodes is interpreted: its dispatch table is keyed by UFL classes, which the sample nodes carry by name
-        lm = repo.mod("ffcx.codegeneration.lnodes")
-        import ast as _ast
-        tbl = lm.assigns.get("_ufl_call_lookup")
-        if not isinstance(tbl, _ast.Dict):
-            raise AnalysisError("lnodes._ufl_call_lookup is not a dict literal")
-        from ..absint import _Cls
-        from ..model import dotted as _dotted
-        for k_ in tbl.keys:
-            d_ = _dotted(k_)
-            if d_:
-                I.overrides[d_] = _Cls(d_.split(".")[-1])
+        # (keys: every ufl class the module mentions stands for itself; the table is evaluated as module initialisation leaves it)
+        I.install_ufl_classes("ffcx.codegeneration.lnodes")
         for nm_ in ("_ufl_handler_name_",):
             pass
         I.overrides["optimize"] = _PyCall(lambda code, rule=None: code)
